@@ -140,9 +140,14 @@ class Ed25519Key(PKey):
                 cipher["mode"](key[cipher["key-size"] :]),
                 backend=default_backend(),
             ).decryptor()
-            private_data = (
-                decryptor.update(private_ciphertext) + decryptor.finalize()
-            )
+            try:
+                private_data = (
+                    decryptor.update(private_ciphertext)
+                    + decryptor.finalize()
+                )
+            except ValueError as e:
+                # CBC: not a multiple of the block size
+                raise SSHException(str(e))
 
         message = Message(_unpad_openssh(private_data))
         if message.get_int() != message.get_int():
